@@ -325,8 +325,10 @@ async fn run_case(c: &Case) -> CaseOut {
     let mut ops = Vec::new();
     let mut quiet_hang = false;
     let deadline = std::time::Instant::now() + Duration::from_secs(10);
+    // (one grace period of 200 ms after the deadline, not one per pending caller: there may be 32768 of them)
+    let grace_until = deadline + Duration::from_millis(200);
     for (i, h) in handles.into_iter().enumerate() {
-        let left = deadline.saturating_duration_since(std::time::Instant::now()).max(Duration::from_millis(200));
+        let left = grace_until.saturating_duration_since(std::time::Instant::now()).max(Duration::from_micros(50));
         match tokio::time::timeout(left, h).await {
             Ok(Ok(out)) => ops.push((ids[i], Some(out))),
             Ok(Err(_)) => ops.push((ids[i], Some(EchoOutcome::Err("task panicked".into())))),
